@@ -371,6 +371,12 @@ def d2(ctx, rep):
         x1 = _pair_of(fn, pd_calls[1].value.args[0]) if pd_calls[1].value.args else None
         if order and set(order) == set(names) and x0 and x1 and all(isinstance(z, str) for z in x0 + x1):
             ok = order == names and x0 == list(reversed(x1)) and x0[0].startswith('left') and x0[1].startswith('right')
+    for u_ in ust:
+        narrow = [x for x in ast.walk(u_.value) if isinstance(x, (ast.Attribute, ast.Constant)) and
+                  ((isinstance(x, ast.Attribute) and x.attr in ('float32', 'float16', 'half', 'single')) or (isinstance(x, ast.Constant) and x.value in ('float32', 'float16', 'f4', 'f2')))]
+        if narrow:
+            rep.bad('D2.correct', fn, u_, f'`{short(u_, 70)}` stores the pseudo-observations in reduced precision: h-values within 6e-8 of 1 round to exactly 1.0 after the 0/1 correction '
+                    '(edge.U leaves the open unit interval) and every deeper tree is built on rounded inputs', construct='precision of edge.U')
     if ok is None:
         rep.undecided('D2.correct', fn, ust[0] if ust else fn.node.name, 'how edge.U is assembled from the two h-arrays was not recognised', construct='layout of edge.U')
     else:
@@ -579,6 +585,21 @@ def d4(ctx, rep):
     else:
         rep.ok('D4.determ', roots[0], roots[0].node.name, 'no entropy source in the likelihood closure', construct='likelihood closure')
     rep.guarded('L4.l4', l4, ctx, rep, only_functions={r.qualname for r in roots}, rule='D4.determ')
+    # the point at which the likelihood is evaluated is the caller's point: the argument is not altered before it is used
+    CHANGING = {'clip', 'abs', 'absolute', 'maximum', 'minimum', 'where', 'round', 'around', 'nan_to_num', 'sort', 'floor', 'ceil', 'fmin', 'fmax'}
+    for fn in roots:
+        ps = [p_ for p_ in fn.params[1:]]
+        for p_ in ps:
+            hits = [a for a in walk_no_nested(fn.node) if isinstance(a, ast.Assign) and any(isinstance(t, ast.Name) and t.id == p_ for t in a.targets)
+                    and isinstance(a.value, ast.Call) and call_name(a.value) in CHANGING
+                    and any(isinstance(x, ast.Name) and x.id == p_ for x in ast.walk(a.value))]
+            hits += [a for a in walk_no_nested(fn.node) if isinstance(a, ast.Assign) and isinstance(a.targets[0], ast.Subscript)
+                     and isinstance(a.targets[0].value, ast.Name) and a.targets[0].value.id == p_]
+            if hits:
+                rep.bad('D4.determ', fn, hits[0], f'`{short(hits[0], 70)}` alters the point `{p_}` handed to {fn.short} before the likelihood is evaluated: the value returned is '
+                        'the likelihood of another point', construct=f'{fn.cls.name}.get_likelihood: argument {p_} unchanged')
+            else:
+                rep.ok('D4.determ', fn, fn.node.name, f'`{p_}` reaches the evaluation unchanged', construct=f'{fn.cls.name}.get_likelihood: argument {p_} unchanged')
 
 
 def d5(ctx, rep):
@@ -641,6 +662,33 @@ def d5(ctx, rep):
                 'a node can be conditioned on a draw that was not the one it consumed (the dependence of the sampled row is lost)', construct='index of the uniform draws')
     elif uses:
         rep.ok('D5.schema', sr, uses[0], 'the uniform draws are indexed consistently', construct='index of the uniform draws')
+    # the edge that joins the node being visited with an already visited one is found whatever its orientation: edges keep their two
+    # nodes in sorted order, the walk reaches a node from either side
+    from ..boolcond import Conds, atoms_of, equivalent, substitute
+    cd_ = Conds(prog, sr)
+    for t_ in [x for x in ast.walk(sr.node) if isinstance(x, ast.If)]:
+        ev = {x.value.id for x in ast.walk(t_.test) if isinstance(x, ast.Attribute) and x.attr in ('L', 'R') and isinstance(x.value, ast.Name)}
+        if len(ev) != 1 or not any(isinstance(x, ast.Name) and x.id == node_name for x in ast.walk(t_.test)):
+            continue
+        e_ = next(iter(ev))
+        f_ = cd_.formula(t_.test)
+        keys = list(atoms_of(f_))
+        if not all(k.startswith('eq[') for k in keys) or not keys:
+            continue
+        swap = {}
+        for k in keys:
+            k2 = k.replace(f'{e_}.L', '\0').replace(f'{e_}.R', f'{e_}.L').replace('\0', f'{e_}.R')
+            body = k2[3:-1].split('|')
+            swap[k] = ('atom', 'eq[' + '|'.join(sorted(body)) + ']')
+        g_ = substitute(f_, swap)
+        if set(atoms_of(g_)) - set(keys):
+            rep.bad('D5.schema', sr, t_.test, f'`{short(t_.test, 80)}` finds the edge between the visited node and `{node_name}` in one orientation only: edges store their nodes '
+                    f'sorted, so a walk that reaches `{node_name}` from the other side misses the pair copula (the node is sampled as if independent)',
+                    construct='edge lookup orientation')
+        elif equivalent(f_, g_) is not False:
+            rep.ok('D5.schema', sr, t_.test, 'the edge lookup is symmetric in (L, R)', construct='edge lookup orientation')
+        else:
+            rep.bad('D5.schema', sr, t_.test, f'`{short(t_.test, 80)}` is not symmetric in the two nodes of the edge', construct='edge lookup orientation')
     clip = [s for s in walk_no_nested(sr.node) if isinstance(s, ast.Assign) and isinstance(s.targets[0], ast.Name) and isinstance(s.value, ast.Call)
             and call_name(s.value) == 'min' and any(isinstance(x, ast.Call) and call_name(x) == 'max' for x in ast.walk(s.value))]
     clip += [s for s in walk_no_nested(sr.node) if isinstance(s, ast.Assign) and isinstance(s.targets[0], ast.Name) and isinstance(s.value, ast.Call)
